@@ -121,8 +121,31 @@ func HOpenAPI() {
 			return nil
 		})
 	}
+	// the bytes: ToOpenAPIJson / ToOpenAPIJsonIndent (the real methods; encoding/json modelled over
+	// interpreter values in the engine) succeed, are valid JSON, agree up to whitespace, and every
+	// $ref names a schema of components
+	ob, err1 := j.ToOpenAPIJson()
+	oi, err2 := j.ToOpenAPIJsonIndent()
+	vAssert(err1 == nil && err2 == nil, "c17-marshal-of-the-document-fails")
+	vAssert(vJSONValid(ob), "c17-openapi-json-invalid")
+	o := string(ob)
+	vAssert(vJSONCompact(oi) == o, "c17-openapi-json-and-indent-differ-beyond-whitespace")
+	vAssert(strings.HasPrefix(o, "{\"openapi\":\"3.0.3\",\"info\":{"), "c17-openapi-and-info-first")
+	const refKey = "\"$ref\":\"#/components/schemas/"
+	for rest := o; ; {
+		i := strings.Index(rest, refKey)
+		if i < 0 {
+			break
+		}
+		rest = rest[i+len(refKey):]
+		name := rest[:strings.IndexByte(rest, '"')]
+		_, ok := cat.UserTypes.Get("@" + name)
+		vAssert(ok, "c17-ref-does-not-resolve-to-a-component")
+		ci := strings.Index(o, "\"components\":{\"schemas\":{")
+		vAssert(ci >= 0 && strings.Contains(o[ci:], "\""+name+"\":"), "c17-ref-target-missing-in-components")
+	}
 	vReach("exported")
-	vObserve("ok", nHTTP, len(oa.Paths))
+	vObserve("ok", nHTTP, len(oa.Paths), len(ob))
 }
 
 func init() { vRegister("HOpenAPI", HOpenAPI) }
